@@ -61,4 +61,10 @@ PROPS = {
         'correspondence': 'Hostname, Domain, SourceHostname, SourceDomain, ThirdParty, URLLowerCase of NewRequest / NewRequestForHostname vs the model (PublicSuffix answers for the hostnames are oracle inputs)',
         'assumptions': ['ASCII URLs (others counted unsupported: ToLower is Unicode-aware in Go)'],
     },
+    'C18': {
+        'harness': 'c18',
+        'rule': 'lines IP (sp|tab)+ name ((sp|tab)+ name)* with IPv4, IPv6 and IPv4-mapped addresses, 1-8 names, optional trailing blanks, comments with or without preceding blank or tab (incl. double # after a blank and comments containing names and addresses), leading blanks; bare-domain lines; one sixth byte-mutated (outside the grammar, model comparison only); each with probe names (listed names, unlisted names, a listed name minus its last byte / plus one byte); through NewRule, HostRule.Match and DNSEngine.Match; non-trivial = the line produced a host rule',
+        'correspondence': 'kind, address, names of NewRule(line); HostRule.Match per probe; DNS engine group (v4/v6/none) per probe; for in-grammar lines the harness also compares with the names and address the generator wrote',
+        'assumptions': ['IPv6 zones are outside the modelled fragment'],
+    },
 }
